@@ -386,6 +386,13 @@ class Gen:
         if self.want_dbtp and params and self.chance(0.5):
             b.append({"t": "dbtp %s" % params[0]})
         b += self.body(depth + 1, n=self.i(0, 2), scope_restore=False)
+        if self.chance(0.3):
+            # guard clauses and early returns (value-less modifier forms, and a value that starts with a nested array literal)
+            g = self.pick(["return if %s", "return unless %s", "return nil if %s", "return [[1], [2]] if %s"])
+            c = ("%s.nil?" % params[0]) if params and self.chance(0.5) else self.pick(["1 == 2", "false", "2 > 1"])
+            b.append({"t": g % c})
+            if self.chance(0.5):
+                b += self.body(depth + 1, n=1, scope_restore=False)
         rt = self.any_type(True)
         if params and self.chance(0.4):
             b.append({"t": params[0]})
